@@ -190,6 +190,8 @@ def build_config(case, tmp, slp):
         early_stopping_patience=2,
     )
     cfg = TrainingJobConfig(data_config=d, model_config=m, trainer_config=t).to_sleap_nn_cfg()
+    if case.get("val_bs"):  # a validation batch size larger than the validation set (2 labelled frames)
+        cfg.trainer_config.val_data_loader.batch_size = int(case["val_bs"])
     if case["kind"].startswith("plain"):
         y = os.path.join(tmp, "user_config.yaml")
         OmegaConf.save(cfg, y)
@@ -422,6 +424,11 @@ def grid(tier):
     if tier != "quick":
         again = [{"model": mt, "fw": fw, "wandb": wb, "ckpt": True, "kind": "plain", "second": True} for mt in MODEL_TYPES for fw in ("torch_dataset", "torch_dataset_np_chunks") for wb in (False, True)]
     lowmem = lowmem + again
+    # a validation set smaller than the validation batch size (checkpointing monitors the validation loss)
+    smallval = [{"model": MODEL_TYPES[(i + 3) % 4], "fw": fw, "wandb": False, "ckpt": True, "kind": kind, "val_bs": 4} for i, (fw, kind) in enumerate([("torch_dataset", "structured"), ("torch_dataset_np_chunks", "plain")])]
+    if tier != "quick":
+        smallval = [{"model": mt, "fw": fw, "wandb": False, "ckpt": True, "kind": "plain", "val_bs": 4} for mt in MODEL_TYPES for fw in ("torch_dataset", "torch_dataset_np_chunks")]
+    lowmem = lowmem + smallval
     if tier == "quick":
         # pairwise-complete 16-run sub-grid: all fw x wandb x ckpt x kind combinations, model types alternating
         out = []
